@@ -9,6 +9,7 @@ from engine.checks import py_common
 ROOT = os.path.dirname(os.path.dirname(os.path.dirname(
     os.path.abspath(__file__))))
 FUNCS = [('modeling.py', 'contracts.py.lin_spec', '_lin._addterm'),
+         ('modeling.py', 'contracts.py.lin_spec', '_lin.__len__'),
          ('modeling.py', 'contracts.py.function_spec', '_function.__imul__')]
 
 
@@ -58,6 +59,8 @@ def make_replayer():
             want.append('addterm-value')
         if ob.kind == 'imul-returns-self':
             want.append('imul-value')
+        if ob.kind == 'len-value':
+            want = ['len-value', 'addterm-value', 'addterm-exceptions']
         hits = {k: v for k, v in bat.result.items() if k in want}
         info = {'battery': 'engine/replay/expr_battery.py on an overlay '
                 'build of the current tree: f.value() of sums in which a '
@@ -102,8 +105,8 @@ def run(report, tier, seed):
         'coefficient and of the new term; the postcondition is the '
         'entry-wise value identity of the effective coefficients.')
     report.not_decided += [
-        'every other operation of the expression algebra: __len__ of '
-        'functions with several variables, _function arithmetic and '
+        'every other operation of the expression algebra: _function '
+        'arithmetic and '
         'curvature bookkeeping (_cvxterms / _ccvterms), _mul / _rmul, '
         'indexing, sum / max / min / abs / dot, the in-place forms beyond '
         '_addterm, refusal of non-convex combinations, value() itself',
